@@ -226,6 +226,15 @@ def run_conn_pipelined(port, stream, rng_seed, reader_mode, result):
                 time.sleep(pause)
     except OSError as e:
         result["send_err"] = repr(e)
+    # a third of the connections half-close right behind their last byte (shutdown(SHUT_WR)): the FIN may already be in the
+    # server's socket when it finishes executing the last read's commands - every command still gets its reply
+    if rng.random() < 0.34:
+        try:
+            import socket as _s
+            c.s.shutdown(_s.SHUT_WR)
+            result["half_closed"] = True
+        except OSError:
+            pass
     done.set()
     t.join(timeout=120)
     result["got"] = got
@@ -291,6 +300,7 @@ def pipeline_leg(args, rep, prop, which):
                 t.join(timeout=180)
             rep.count("cases")
             rep.count("reader:" + reader)
+            rep.count("connections_half_closed_behind_the_last_byte", sum(1 for r in results if r.get("half_closed")))
             rep.count("shape:" + shape)
             a_alive = pair.a.alive()
             for cid, st in enumerate(streams):
